@@ -22,14 +22,14 @@ from gen.models import unit_quat, unit_vec, fmt
 
 META = {
     "technique": "Lean 4 proofs over the reals about a hand-written executable model of the CSR 'lower triangle by rows' routines (loop invariants by list induction, generic dimension and sparsity pattern; finite-dimensional linear algebra from Mathlib for the left inverse and for positive definiteness) and about c2lean-translated spatial kernels (ring) + bitwise differential correspondence of the model (Float) with the compiled engine on the engine's own matrices + property oracle on the real engine",
-    "text": "Proved for every dimension n and every sparsity pattern accepted by lowerOk (diagonal slot last, strictly increasing columns below the diagonal) — for mj_factorI additionally treeOk (row of column c = prefix of the row, as mj_makeDofDofSparse lays out any dof_parentid forest): the dense matrix of mju_sym2dense (mj_fullM) times v equals mju_mulSymVecSparse (mj_mulM) entry by entry, and both equal the matrix D + Lo + Lo^T the format stands for; the output of mju_sym2dense is symmetric for every input whatsoever; mju_dotSparse's 4-accumulator scheme is the plain dot product; whatever qLD / qLDiagInv hold (lower pattern, non-zero qLDiagInv), the three passes of mj_solveLD return the solution y of (L^T D L) y = x with L the unit lower factor stored in the off-diagonal slots and D = 1/qLDiagInv — hence if L^T D L = M then mj_mulM(mj_solveM(x)) = x and mj_solveM(mj_mulM(v)) = v; mj_factorI on a tree pattern produces exactly such a factorisation (L^T D L = M, qLDiagInv = 1/D) whenever its pivots are non-zero [see THEOREMS for whether this last clause is proved or certificate-only]. Spatial algebra on the kernels translated from engine_util_spatial.c / engine_inline.h: crossForce is minus the transpose of crossMotion, crossMotion(v, v) = 0, the mji_ inline copies equal the mju_ functions, mju_inertCom + mju_mulInertVec implement the parallel-axis theorem (momentum (R I R^T w + d x p, p), p = m (v + w x d)) and their quadratic form is sum_k I_k (R^T w)_k^2 + m |v + w x d|^2. Algebra of positive definiteness: sum_b J_b^T I_b J_b + diag(armature) is positive semidefinite when every I_b is and armature >= 0, and positive definite when every I_b is and every non-zero v is seen by some J_b or carries positive armature.",
+    "text": "Proved for every dimension n and every sparsity pattern accepted by lowerOk (diagonal slot last, strictly increasing columns below the diagonal) — for mj_factorI additionally treeOk (row of column c = prefix of the row, as mj_makeDofDofSparse lays out any dof_parentid forest): the dense matrix of mju_sym2dense (mj_fullM) times v equals mju_mulSymVecSparse (mj_mulM) entry by entry, and both equal the matrix D + Lo + Lo^T the format stands for; the output of mju_sym2dense is symmetric for every input whatsoever; mju_dotSparse's 4-accumulator scheme is the plain dot product; whatever qLD / qLDiagInv hold (lower pattern, non-zero qLDiagInv), the three passes of mj_solveLD return the solution y of (L^T D L) y = x with L the unit lower factor stored in the off-diagonal slots and D = 1/qLDiagInv — hence if L^T D L = M then mj_mulM(mj_solveM(x)) = x and mj_solveM(mj_mulM(v)) = v; mj_factorI on a tree pattern produces exactly such a factorisation (L^T D L = M entry by entry, qLDiagInv = 1/D, pattern unchanged) whenever no stored qLDiagInv is zero (ltdl_reconstruct: induction over the backward row loop with the invariant M = sum_{r done} d_r l_r l_r^T + remaining leading block, the positional mju_addToScl on row prefixes justified by treeOk), so mj_solveM o mj_mulM = mj_mulM o mj_solveM = id for the engine's own factorisation (solveM_mulM_inverse). Spatial algebra on the kernels translated from engine_util_spatial.c / engine_inline.h: crossForce is minus the transpose of crossMotion, crossMotion(v, v) = 0, the mji_ inline copies equal the mju_ functions, mju_inertCom + mju_mulInertVec implement the parallel-axis theorem (momentum (R I R^T w + d x p, p), p = m (v + w x d)) and their quadratic form is sum_k I_k (R^T w)_k^2 + m |v + w x d|^2. Algebra of positive definiteness: sum_b J_b^T I_b J_b + diag(armature) is positive semidefinite when every I_b is and armature >= 0, and positive definite when every I_b is and every non-zero v is seen by some J_b or carries positive armature.",
     "note": "NOT proved, decided by the oracle on the real engine only: that mj_crb computes sum J^T I J + armature (composite-rigid-body recursion), that mj_rne(a) = M a + bias, qfrc_bias = rne(0) (+ tendon bias), and that this bias is the Coriolis / centrifugal / gyroscopic / gravity force of the Lagrangian with the engine's own M(q) (finite-difference oracle; skipped for models whose tendon inertia falls outside M's pattern). The model abstracts flat address arithmetic (rowadr[i] + k, i*n + col) to rows; the AVX kernels, sleep filtering (index != NULL) and mj_solveM2 are not modelled. Tendon armature: the engine adds armature * J^T J only inside M's tree sparsity pattern (upstream test TendonArmature expects exactly that); the oracle checks that behaviour and counts the models where off-pattern terms are dropped (reported in the evidence, not as a failure). Reals vs doubles: rounding is outside the proofs.",
 }
 
 P = "MjProof.C06."
 THEOREMS = [P + t for t in (
     "fullM_mulM_agree", "sym2dense_symmetric", "fullM_entry", "mulM_entry",
-    "solveLD_solves", "solveLD_inverts_partial", "solveLD_mulM_partial",
+    "solveLD_solves", "solveLD_inverts_of_cert", "solveLD_mulM_of_cert", "ltdl_reconstruct", "solveM_mulM_inverse",
     "crossForce_dual_crossMotion", "crossMotion_self", "mji_crossForce_eq", "mji_crossMotion_eq", "mji_dot6_eq",
     "inertCom_parallel_axis", "inertCom_quadratic_form",
     "sum_congruence_psd", "sum_congruence_pd",
